@@ -50,7 +50,7 @@ type lkCase struct {
 	target                int // index of the peer whose id is the key, or -1
 	peers                 []lkPeer
 	rt                    []int // peers put in the routing table
-	stopKind, stopArg     int   // 0 never, 1 queried-at-least n, 2 peer idx queried
+	stopKind, stopArg     int   // 0 never, 1 queried-at-least n, 2 peer idx queried, 3 true once stopArg follow-up queries have ended
 	strategy              int
 	choices               []int // strategy 4: the i-th release picks pending[choices[i]] (0 beyond the vector)
 	branching             []int // filled by the run: number of pending calls at each release
@@ -186,10 +186,13 @@ func lkGen(r *vfRand, i int, honest bool) *lkCase {
 	c.rt = r.Perm(n)[:m]
 	// stop function
 	if !honest && r.Chance(25) {
-		if r.Bool() {
+		switch r.Intn(3) {
+		case 0:
 			c.stopKind, c.stopArg = 1, 1+r.Intn(4)
-		} else {
+		case 1:
 			c.stopKind, c.stopArg = 2, r.Intn(n)
+		default:
+			c.stopKind, c.stopArg = 3, 1+r.Intn(3)
 		}
 	}
 	c.strategy = r.Intn(4)
@@ -367,6 +370,7 @@ func lkRun(t *testing.T, r *vfRand, c *lkCase, public bool, hooks ...*lkHooks) *
 	ctx, cancel := context.WithCancel(evCtx)
 	defer cancel()
 
+	followDone := 0 // follow-up queries released so far
 	stopFn := func(qp *qpeerset.QueryPeerset) bool {
 		switch c.stopKind {
 		case 1:
@@ -377,6 +381,8 @@ func lkRun(t *testing.T, r *vfRand, c *lkCase, public bool, hooks ...*lkHooks) *
 					return true
 				}
 			}
+		case 3:
+			return followDone >= c.stopArg
 		}
 		return false
 	}
@@ -406,7 +412,6 @@ func lkRun(t *testing.T, r *vfRand, c *lkCase, public bool, hooks ...*lkHooks) *
 	stampsBefore := d.routingTable.GetTrackedCplsForRefresh()
 
 	termSeen := false
-	followDone := 0
 	cancelled := false
 	drainEvents := func() {
 		for {
@@ -588,6 +593,8 @@ func lkCoq(c *lkCase, o *lkObs, selfID peer.ID) string {
 		stop = fmt.Sprintf("StopQueriedAtLeast %d", c.stopArg)
 	case 2:
 		stop = "StopPeerQueried " + simKadCoq([]byte(c.peers[c.stopArg].id))
+	case 3:
+		stop = fmt.Sprintf("StopAfterFollowups %d", c.stopArg)
 	}
 	target := "None"
 	if c.target >= 0 {
@@ -719,12 +726,15 @@ func lkRunAll(t *testing.T, runMod string, honestPct int, withPublic bool) {
 	only := vfOnly()
 	cs := vfNewCases(runMod, 100)
 	root := vfNewRand(seed)
+	vfStartWatchdog(60 * time.Second)
+	defer vfStopWatchdog()
 	for i := 0; i < n; i++ {
 		r := root.Fork()
 		if only >= 0 && i != only {
 			continue
 		}
 		c := lkGen(r, i, r.Chance(honestPct))
+		vfBeat(map[string]any{"case": i, "seed": seed, "K": c.k, "alpha": c.alpha, "beta": c.beta, "npeers": len(c.peers), "stop": []int{c.stopKind, c.stopArg}, "strategy": c.strategy, "cancelAt": c.cancelAt})
 		var o *lkObs
 		var self peer.ID
 		mainLeak := simBubble(t, func(t *testing.T) {
